@@ -366,6 +366,12 @@ def wire_params(ctx, rng):
         style = rng.randrange(3)
         if style == 0:
             pw = bytes(rng.randint(33, 126) for _ in range(ln))
+            if ln >= 3 and rng.random() < 0.4:
+                # a pass phrase: blanks and tabs inside (never at the ends: scanf-style input would be ambiguous there)
+                b = bytearray(pw)
+                for _ in range(rng.randint(1, 3)):
+                    b[rng.randrange(1, ln - 1)] = rng.choice([32, 32, 9])
+                pw = bytes(b)
         elif style == 1:
             pw = bytes(rng.randint(0x80, 0xFF) for _ in range(ln))
         else:
